@@ -3,10 +3,6 @@ A property is listed under `checks` iff harness/<ID>.py exists and it has an ent
 CHECKS; otherwise it goes to not_applicable with the reason below."""
 
 NOT_APPLICABLE = {
-    'C33': "Compares the runtime behaviour of two compiled artefacts (verify() engines vs set_source()) over "
-           "random programs; deciding it needs compiling/importing each pair, and a symbolic encoding would "
-           "have to cover the import system, dlopen and libffi. The shared conversion kernels are decided "
-           "under C03/C13; claiming C33 on that basis would overstate.",
 }
 
 PENDING_REASON = ("check not built yet in this session (design in DESIGN.md section 4); "
@@ -157,6 +153,21 @@ reg('C10', engine='pysym + llsym',
     note='Trusted: pysym proxies, llsym semantics, GCC\'s enum rule as stated, abstract dict model. API-mode enum '
          'size/sign (taken from the compiler) not covered.',
     technique='symbolic execution via proxy values (Python) and of LLVM IR (C), SMT (z3)')
+
+reg('C33', engine='llsym',
+    text='Differential symbolic execution of the two builds of the same (cdef, C source), both generated at run time by the '
+         'working tree and compiled to IR: the verify() CPython engine\'s wrappers and constant functions (vengine_cpy, with its '
+         'own conversion macros) against the set_source() ones (Recompiler, _cffi_include.h) over the same backend IR -- same '
+         'acceptance, same value handed to C, same result object, same exception for every Python int / double over 17 integer '
+         'types, _Bool, float, double and two multi-argument functions; integer constants of 10 types in checked / unchecked / '
+         'static-const form for every compiler value; the generic engine\'s constant shim + the real _load_constant (symbolic '
+         'ints) rebuild the compiler\'s value; its calls go through the libffi path (C13\'s obligation, cross-included); the '
+         'layout list of a partial struct reaches tp.fixedlayout unchanged in both engines.',
+    note='Partial: pointer/char/struct/enum/callback arguments, global variables, non-integer constants, complete-struct checks '
+         'and everything that needs compiling/importing the artefacts (done by the real replays for one function and two '
+         'constants) are outside. Trusted: clang IR, llsym/pysym semantics, CPython contracts.',
+    technique='differential symbolic execution of LLVM IR of two generated modules and of Python via proxy values, SMT (z3), '
+              'counterexamples replayed by building all three artefacts with the real tool chain')
 
 reg('C34', engine='llsym',
     text='Bounded symbolic execution of the real delegation code behind ffi.include(): _realize_c_struct_or_union / '
